@@ -9,7 +9,12 @@ their marginals on such inputs, and checks on the IMPLEMENTATION's matrices:
   * prior - posterior PSD, posterior variance <= prior variance, variance non-increasing when observations
     are added one at a time, variance >= settings.min_variance (exactly the Coq clamp max(diag, min_variance)),
     stddev real, likelihood noise >= the constraint's lower bound (value compared with the Coq model's
-    softplus(raw)+lb term), FixedGaussianNoise >= settings.min_fixed_noise (exactly the Coq clamp)."""
+    softplus(raw)+lb term), FixedGaussianNoise >= settings.min_fixed_noise (exactly the Coq clamp);
+  * part F: the same oracles on the covariances handed out under observation_nan_policy('mask' / 'fill') (single-output,
+    FixedNoise, batch, multitask; also: never smaller than the posterior of the same data without holes), by fantasy models
+    (get_fantasy_model with / without noise=, 1..3 steps, fast_pred_var on / off; each step's covariance is below its
+    source's: c07_more_data_less_variance), and after short histories of set_train_data (inputs only / targets only /
+    both / resized) / load_state_dict / train-eval on a model that has already predicted."""
 import json
 import math
 import random
@@ -22,7 +27,7 @@ import gpytorch
 from gpytorch import settings as gs
 from harness.lib import common as C
 
-COQ_TARGETS = ["Models/C07_psd.vo", "Proofs/C07_psd.vo", "Proofs/C07_real.vo"]
+COQ_TARGETS = ["Models/C07_psd.vo", "Proofs/C07_psd.vo", "Proofs/C07_real.vo", "Proofs/C07_policy.vo"]
 ROUNDING_RULE = ("thresholds are max(fixed scale-relative tolerance, 8 * n * b) (eigenvalues) / max(.., 8 * b) (symmetry, monotonicity) "
                  "where b is an input-dependent bound on the float64 error of one matrix entry, computed and recorded per case: "
                  "kernels.kernel.sq_dist forms r^2 = |x|^2+|y|^2-2x.y on inputs/lengthscale centred on their mean, so "
@@ -779,6 +784,412 @@ def run_var(out, case, jobs, owner):
                  impl=(mvar - var).tolist(), model=1e-4)
 
 
+# --------------------------------------------------------------------------- part F: non-default policies, state changes
+# "Every covariance handed out" includes the ones handed out under observation_nan_policy('mask' / 'fill'), by fantasy
+# models, and after state-changing operations (set_train_data, load_state_dict, train/eval) on a model that has already
+# made predictions.  The oracles are the ones of part B (symmetric PSD, prior - posterior PSD, variance floor, posterior
+# variance <= prior variance, exact certificate on the default path) plus monotonicity in the data: a posterior that has
+# seen MORE observations (the same data without the holes; the fantasy model vs its source) has the smaller covariance.
+
+class MTGP(gpytorch.models.ExactGP):
+    def __init__(self, x, y, lik, kern, consts):
+        super().__init__(x, y, lik)
+        self.mean_module = gpytorch.means.MultitaskMean(gpytorch.means.ConstantMean(), num_tasks=2)
+        for m, c in zip(self.mean_module.base_means, consts):
+            m.constant.data.fill_(c)
+        self.covar_module = kern
+
+    def forward(self, x):
+        return gpytorch.distributions.MultitaskMultivariateNormal(self.mean_module(x), self.covar_module(x))
+
+
+STATE_FAMS = ["rbf", "matern15", "matern25", "rq", "scale_rbf", "rbf+linear", "periodic", "rbf_ard", "pp1", "poly2"]
+STATE_GEOMS = ["random", "dup", "near", "cluster", "grid"]
+NAN_FORMS = ["single", "fixed", "batch", "multitask"]
+
+
+def _mt_spec(rng):
+    return gen_spec(rng, "multitask", "mid")
+
+
+def _separated(prng, spec, k, geom):
+    return gen_points(prng, spec, k, geom)
+
+
+def psd_suite(out, key, desc, cov, Kss, var, sd, jobs, owner, tol, cert, sc, rb, st, what):
+    """the part-B oracles on one covariance handed out"""
+    ok = check_matrix(out, key + ":cov", what, desc, cov, jobs, owner, tol, cert, ref=sc, symtol=st, rb=rb)
+    ok = check_matrix(out, key + ":prior-minus-post", "prior minus " + what, desc, Kss - cov, jobs, owner, tol, cert, ref=sc,
+                      symtol=st, rb=rb) and ok
+    mv = gs.min_variance.value(var.dtype)
+    var, sd = var.reshape(-1), sd.reshape(-1)
+    if (var < mv).any() or not torch.isfinite(sd).all() or (sd < 0).any():
+        out.fail(key + ":variance-floor", "%s: variance below settings.min_variance or stddev not a non-negative real" % what,
+                 desc, impl=dict(var=var.tolist(), stddev=sd.tolist()), model=mv)
+        ok = False
+    if (var > torch.diagonal(Kss) + max(tol * sc, KB * rb) + mv).any():
+        out.fail(key + ":variance-gt-prior", "%s: variance exceeds the prior variance" % what, desc, impl=var.tolist(),
+                 model=torch.diagonal(Kss).tolist())
+        ok = False
+    return ok
+
+
+def more_data_suite(out, key, desc, cov_less, cov_more, jobs, owner, tol, cert, sc, rb, st, what):
+    """cov_less - cov_more PSD and no variance larger with more data (c07_more_data_less_variance / _variance_monotone)"""
+    d = torch.diagonal(cov_more) - torch.diagonal(cov_less)
+    if (d > max(max(MONO_TOL, tol) * sc, KB * rb)).any():
+        out.fail(key + ":monotone", "%s: a posterior variance is LARGER with more observations" % what, desc,
+                 impl=dict(fewer_observations=torch.diagonal(cov_less).tolist(), more_observations=torch.diagonal(cov_more).tolist()))
+        return False
+    return check_matrix(out, key + ":less-minus-more", "%s: covariance with fewer minus covariance with more observations" % what,
+                        desc, cov_less - cov_more, jobs, owner, tol, cert, ref=sc, symtol=st, rb=rb)
+
+
+# ---- F.a  observation_nan_policy posteriors
+
+def nan_cases(rng, tier):
+    cases = []
+    reps = 1 if tier == "quick" else 4
+    for form in NAN_FORMS:
+        for pol in ("mask", "fill"):
+            for geom in STATE_GEOMS:
+                for fpv in (False, True):
+                    for _ in range(reps):
+                        fam = rng.choice(STATE_FAMS)
+                        spec = _mt_spec(rng) if form == "multitask" else gen_spec(rng, fam, "mid")
+                        n = rng.randint(2, 3) if form == "multitask" else rng.randint(2, 5)
+                        t = rng.randint(1, 2) if form == "multitask" else rng.randint(1, 4)
+                        cases.append(dict(kind="nanpost", spec=spec, form=form, policy=pol, n=n, t=t, geom=geom, fpv=fpv,
+                                          pseed=rng.randint(0, 10 ** 9), noise=rng.choice([1e-3, 1e-2, 0.3]),
+                                          test=rng.choice(["fresh", "on-missing", "mixed"])))
+    return cases
+
+
+def nan_setup(case):
+    """inputs, targets with holes (at least one hole and one observation per batch element), per-row noise"""
+    spec, form, n, t = case["spec"], case["form"], case["n"], case["t"]
+    prng = random.Random(case["pseed"])
+    B = 2 if form == "batch" else 1
+    Tn = 2 if form == "multitask" else 1
+    Xb, Xsb, yb, mb = [], [], [], []
+    N = n * Tn
+    keep = prng.randrange(N)      # observed in every batch element ('mask' drops a row for the whole batch)
+    for b in range(B):
+        pts = gen_points(prng, spec, n + t, case["geom"])
+        prng.shuffle(pts)
+        X, Xs = pts[:n], pts[n:]
+        k = prng.randint(1, N - 1)
+        miss = [False] * N
+        for i in prng.sample([j for j in range(N) if j != keep], k):
+            miss[i] = True
+        mrows = [i // Tn for i in range(N) if miss[i]]
+        if case["test"] == "on-missing":      # test points on the locations whose observation is missing
+            Xs = [list(X[mrows[i % len(mrows)]]) for i in range(t)]
+        elif case["test"] == "mixed":
+            Xs = [list(X[mrows[i % len(mrows)]]) if i % 2 == 0 else Xs[i] for i in range(t)]
+        y = [prng.uniform(-2, 2) for _ in range(N)]
+        Xb.append(X); Xsb.append(Xs); yb.append(y); mb.append(miss)
+    nr = random.Random(case["pseed"] + 17)
+    noise = [case["noise"] * nr.choice([1.0, 3.0, 10.0]) for _ in range(n)]
+    return Xb, Xsb, yb, mb, noise
+
+
+def nan_model(case, X, y, noise):
+    """X: (B x) n x d, y: (B x) n (x T) tensor (NaN = missing)"""
+    form = case["form"]
+    kern = build_kernel(case["spec"])
+    if form == "multitask":
+        lik = gpytorch.likelihoods.MultitaskGaussianLikelihood(num_tasks=2, rank=0)
+        lik.noise = case["noise"]; lik.task_noises = T([case["noise"] * 2.0, case["noise"] * 0.5])
+        m = MTGP(X, y, lik, kern, (0.3, -0.4))
+    else:
+        if form == "fixed":
+            lik = gpytorch.likelihoods.FixedNoiseGaussianLikelihood(T(noise))
+        else:
+            lik = gpytorch.likelihoods.GaussianLikelihood(); lik.noise = case["noise"]
+        m = GP(X, y, lik, kern)
+    m.eval(); lik.eval()
+    return m, lik
+
+
+def run_nan(out, case, jobs, owner):
+    spec, form, n, t = case["spec"], case["form"], case["n"], case["t"]
+    Xb, Xsb, yb, mb, noise = nan_setup(case)
+    B = len(Xb)
+    Tn = 2 if form == "multitask" else 1
+    desc = dict(case)
+    key = "nanpost:%s:%s:%s" % (form, case["policy"], "fast_pred_var" if case["fpv"] else "default")
+    out.case(dict(kind="nanpost", fam=spec["fam"], form=form, policy=case["policy"], geom=case["geom"], n=n, t=t, fpv=case["fpv"],
+                  test=case["test"], missing=[sum(m) for m in mb], pseed=case["pseed"]), True, label="nanpost:%s:%s" % (form, case["policy"]))
+    X, Xs = T(Xb), T(Xsb)
+    y = T(yb)
+    miss = torch.tensor(mb)
+    if form == "multitask":
+        y, miss = y.reshape(B, n, Tn), miss.reshape(B, n, Tn)
+    if B == 1:
+        X, Xs, y, miss = X[0], Xs[0], y[0], miss[0]
+    yh = y.clone(); yh[miss] = float("nan")
+    cms = [gs.observation_nan_policy(case["policy"])]
+    if case["fpv"]:
+        cms += [gs.fast_pred_var(True), gs.max_root_decomposition_size(100)]
+    try:
+        with torch.no_grad(), warnings.catch_warnings():
+            warnings.simplefilter("ignore")
+            with _multi(*cms):
+                model, lik = nan_model(case, X, yh, noise)
+                post = model(Xs)
+                cov, var, sd = post.covariance_matrix, post.variance, post.stddev
+            # the same data without the holes: MORE observations (default policy, dense path)
+            full, _ = nan_model(case, X, y, noise)
+            cov_full = full(Xs).covariance_matrix
+            k0 = build_kernel(spec)
+            Kss = k0(Xs).to_dense()
+    except Exception as e:
+        out.fail("nanpost-exception:%s:%s:%s" % (form, case["policy"], type(e).__name__),
+                 "posterior under observation_nan_policy(%r) raised %r" % (case["policy"], e), desc)
+        return
+    for b in range(B):
+        sel = (lambda a: a[b]) if B > 1 else (lambda a: a)
+        Kb, cb, cfb = sel(Kss), sel(cov), sel(cov_full)
+        sc = scale_of(Kb)
+        with torch.no_grad():
+            rel, det = entry_rounding(k0, torch.cat([sel(X), sel(Xs)]))
+            # amplification of the solve on the observed rows (missing rows carry no weight)
+            A = k0(sel(X)).to_dense()
+            if form == "multitask":
+                amp = 1.0
+                Kx = k0(sel(X), sel(Xs)).to_dense()
+                obs = ~sel(miss).reshape(-1)
+                Ao = A[obs][:, obs] + case["noise"] * 0.5 * torch.eye(int(obs.sum()))
+                amp = (1.0 + torch.linalg.solve(Ao, Kx[obs]).abs().sum(0).max().item()) ** 2
+                Af = A + case["noise"] * 0.5 * torch.eye(A.shape[-1])
+                amp = max(amp, (1.0 + torch.linalg.solve(Af, Kx).abs().sum(0).max().item()) ** 2)
+            else:
+                amp = amplification(k0, sel(X), sel(Xs), T(noise) if form == "fixed" else T([case["noise"]] * n))
+                obs = ~sel(miss).reshape(-1)
+                nz = (T(noise) if form == "fixed" else T([case["noise"]] * n))[obs]
+                Ao = A[obs][:, obs] + torch.diag(nz)
+                amp = max(amp, (1.0 + torch.linalg.solve(Ao, k0(sel(X)[obs], sel(Xs)).to_dense()).abs().sum(0).max().item()) ** 2)
+        rb = rel * sc * amp
+        d = dict(desc, batch_element=b, rounding=dict(entry_bound=rb, amplification=amp, parts=det))
+        what = "posterior covariance under observation_nan_policy(%r) (%s%s)" % (case["policy"], form, ", element %d" % b if B > 1 else "")
+        tol, st = EIG_TOL, SYM_TOL
+        ok = psd_suite(out, key, d, cb, Kb, sel(var), sel(sd), jobs, owner, tol, True, sc, rb, st, what)
+        if ok:
+            more_data_suite(out, key, d, cb, cfb, jobs, owner, tol, True, sc, rb, st, what + " vs the same data without holes")
+
+
+# ---- F.b  fantasy models
+
+def fant_cases(rng, tier):
+    cases = []
+    reps = 1 if tier == "quick" else 4
+    for lik in ("gaussian", "fixed", "fixed+learned"):
+        for geom in STATE_GEOMS:
+            for fpv in (False, True):
+                for steps in (1, 2, 3):
+                    for _ in range(reps):
+                        spec = gen_spec(rng, rng.choice(STATE_FAMS), "mid")
+                        cases.append(dict(kind="fantasy", spec=spec, lik=lik, geom=geom, fpv=fpv, steps=steps, n=rng.randint(1, 4),
+                                          t=rng.randint(1, 4), ms=[rng.randint(1, 2) for _ in range(steps)],
+                                          pseed=rng.randint(0, 10 ** 9), noise=rng.choice([1e-3, 1e-2, 0.3]),
+                                          # fantasy noise relative to the training noise: heteroskedastic in both directions
+                                          fnoise=[rng.choice([0.01, 1.0, 1.0, 30.0, 1000.0]) for _ in range(steps)],
+                                          test=rng.choice(["fresh", "on-train", "mixed"])))
+    return cases
+
+
+def run_fant(out, case, jobs, owner):
+    spec, n, t, steps = case["spec"], case["n"], case["t"], case["steps"]
+    prng = random.Random(case["pseed"])
+    tot = n + t + sum(case["ms"])
+    pts = gen_points(prng, spec, tot, case["geom"])
+    prng.shuffle(pts)
+    X, Xs, rest = pts[:n], pts[n:n + t], pts[n + t:]
+    if case["test"] == "on-train":
+        Xs = [list(X[i % n]) for i in range(t)]
+    elif case["test"] == "mixed":
+        Xs = [list(X[i % n]) if i % 2 == 0 else Xs[i] for i in range(t)]
+    y = [prng.uniform(-2, 2) for _ in range(n)]
+    nr = random.Random(case["pseed"] + 17)
+    noise = [case["noise"] * nr.choice([1.0, 3.0, 10.0]) for _ in range(n)]
+    X, Xs, y = T(X), T(Xs), T(y)
+    desc = dict(case)
+    flag = "fast_pred_var" if case["fpv"] else "default"
+    key = "fantasy:%s:%s" % (case["lik"], flag)
+    iterative = case["fpv"]
+    tol, st = (ITER_TOL, ITER_TOL) if iterative else (EIG_TOL, SYM_TOL)
+    with torch.no_grad():
+        k0 = build_kernel(spec)
+        Kss = k0(Xs).to_dense()
+        sc = scale_of(Kss)
+        Xall = torch.cat([X, T(rest)]) if rest else X
+        learned = 0.05 if case["lik"] == "fixed+learned" else 0.0
+        nall, off = list(noise) if case["lik"] != "gaussian" else [case["noise"]] * n, 0
+        for s, m in enumerate(case["ms"]):
+            nall += [case["noise"] * case["fnoise"][s]] * m if case["lik"] != "gaussian" else [case["noise"]] * m
+        nall_t = T(nall) + learned
+        cond = torch.linalg.cond(k0(Xall).to_dense() + torch.diag(nall_t)).item()
+        rel, det = entry_rounding(k0, torch.cat([Xall, Xs]))
+        amp = amplification(k0, Xall, Xs, nall_t)
+    if iterative and cond >= 300.0:
+        out.count("fantasy: fast_pred_var history skipped (cond >= 300)")
+        return
+    rb = rel * sc * amp
+    desc["rounding"] = dict(entry_bound=rb, amplification=amp, parts=det)
+    out.case(dict(kind="fantasy", fam=spec["fam"], lik=case["lik"], geom=case["geom"], n=n, t=t, ms=case["ms"], fnoise=case["fnoise"],
+                  fpv=case["fpv"], test=case["test"], pseed=case["pseed"]), True, label="fantasy:%s:%s" % (case["lik"], flag))
+    cms = [gs.fast_pred_var(True), gs.max_root_decomposition_size(100)] if case["fpv"] else []
+    try:
+        with torch.no_grad(), warnings.catch_warnings(), _multi(*cms):
+            warnings.simplefilter("ignore")
+            kern = build_kernel(spec)
+            if case["lik"] == "gaussian":
+                lik = gpytorch.likelihoods.GaussianLikelihood(); lik.noise = case["noise"]
+            else:
+                lik = gpytorch.likelihoods.FixedNoiseGaussianLikelihood(T(noise), learn_additional_noise=(case["lik"] == "fixed+learned"))
+                if case["lik"] == "fixed+learned":
+                    lik.second_noise = learned
+            cur = GP(X, y, lik, kern); cur.eval(); lik.eval()
+            post = cur(Xs)
+            covs = [(post.covariance_matrix, post.variance, post.stddev)]
+            for s, m in enumerate(case["ms"]):
+                Xf = T(rest[off:off + m]); off += m
+                yf = T([prng.uniform(-2, 2) for _ in range(m)])
+                kw = {} if case["lik"] == "gaussian" else dict(noise=T([case["noise"] * case["fnoise"][s]] * m))
+                cur = cur.get_fantasy_model(Xf, yf, **kw)
+                post = cur(Xs)
+                covs.append((post.covariance_matrix, post.variance, post.stddev))
+    except Exception as e:
+        ext = external_frame(e)
+        if ext and iterative:
+            out.fail("external:linear_operator:%s:%s:fantasy:%s" % (ext, type(e).__name__, flag),
+                     "installed linear_operator raised %r in %s on a fantasy model under fast_pred_var" % (e, ext), desc)
+        else:
+            out.fail("fantasy-exception:%s:%s:%s" % (case["lik"], flag, type(e).__name__), "fantasy model raised %r" % e, desc)
+        return
+    cert = not iterative
+    for s, (cov, var, sd) in enumerate(covs):
+        d = dict(desc, step=s)
+        what = "posterior covariance of the %s" % ("source model" if s == 0 else "fantasy model after %d step(s)" % s)
+        ok = psd_suite(out, key + (":source" if s == 0 else ":step"), d, cov, Kss, var, sd, jobs, owner, tol, cert, sc, rb, st, what)
+        if ok and s > 0:
+            more_data_suite(out, key, d, covs[s - 1][0], cov, jobs, owner, tol, cert, sc, rb, st,
+                            "fantasy step %d vs the model it was made from" % s)
+
+
+# ---- F.c  short histories of state-changing operations on one model
+
+HIST_OPS = ["set_inputs", "set_targets", "set_both", "set_both_resized", "load_state_dict", "train_eval", "predict"]
+
+
+def hist_cases(rng, tier):
+    cases = []
+    reps = 1 if tier == "quick" else 4
+    for lik in ("gaussian", "fixed"):
+        for geom in STATE_GEOMS:
+            for first in HIST_OPS[:-1]:
+                for _ in range(reps):
+                    spec = gen_spec(rng, rng.choice(STATE_FAMS), "mid")
+                    ops = [first] + [rng.choice(HIST_OPS) for _ in range(rng.randint(0, 2))]
+                    if lik == "fixed":      # the stored noise vector has one entry per training row
+                        ops = [o if o != "set_both_resized" else "set_both" for o in ops]
+                    cases.append(dict(kind="history", spec=spec, lik=lik, geom=geom, ops=ops, n=rng.randint(2, 5), t=rng.randint(1, 4),
+                                      pseed=rng.randint(0, 10 ** 9), noise=rng.choice([1e-3, 1e-2, 0.3]),
+                                      flag=rng.choice(["default", "default", "eager", "fast_pred_var"])))
+    return cases
+
+
+def run_hist(out, case, jobs, owner):
+    spec, n, t = case["spec"], case["n"], case["t"]
+    prng = random.Random(case["pseed"])
+    desc = dict(case)
+    flag = case["flag"]
+    iterative = flag == "fast_pred_var"
+    tol, st = (ITER_TOL, ITER_TOL) if iterative else (EIG_TOL, SYM_TOL)
+    out.case(dict(kind="history", fam=spec["fam"], lik=case["lik"], geom=case["geom"], ops=case["ops"], n=n, t=t, flag=flag,
+                  pseed=case["pseed"]), True, label="history:" + case["ops"][0])
+    for o in case["ops"]:
+        out.count("history-op=" + o)
+
+    def fresh_pts(k):
+        p = gen_points(prng, spec, k, case["geom"]); prng.shuffle(p); return p
+    pts = fresh_pts(n + t)
+    X, Xs = T(pts[:n]), T(pts[n:])
+    y = T([prng.uniform(-2, 2) for _ in range(n)])
+    nr = random.Random(case["pseed"] + 17)
+    noise = T([case["noise"] * nr.choice([1.0, 3.0, 10.0]) for _ in range(n)])
+    cur_spec = spec
+    step = -1
+    try:
+        with torch.no_grad(), warnings.catch_warnings(), flag_cm(flag):
+            warnings.simplefilter("ignore")
+            kern = build_kernel(spec)
+            if case["lik"] == "gaussian":
+                lik = gpytorch.likelihoods.GaussianLikelihood(); lik.noise = case["noise"]
+            else:
+                lik = gpytorch.likelihoods.FixedNoiseGaussianLikelihood(noise.clone())
+            model = GP(X, y, lik, kern); model.eval(); lik.eval()
+            outs = []
+            for step, op in enumerate(["predict"] + case["ops"]):
+                if op == "set_inputs":
+                    X = T(fresh_pts(X.shape[0])); model.set_train_data(inputs=X)
+                elif op == "set_targets":
+                    y = T([prng.uniform(-2, 2) for _ in range(X.shape[0])]); model.set_train_data(targets=y)
+                elif op == "set_both":
+                    X = T(fresh_pts(X.shape[0])); y = T([prng.uniform(-2, 2) for _ in range(X.shape[0])])
+                    model.set_train_data(inputs=X, targets=y)
+                elif op == "set_both_resized":
+                    k = prng.choice([v for v in range(1, 7) if v != X.shape[0]])
+                    X = T(fresh_pts(k)); y = T([prng.uniform(-2, 2) for _ in range(k)])
+                    model.set_train_data(inputs=X, targets=y, strict=False)
+                elif op == "load_state_dict":
+                    # the parameters of another model of the same family (other lengthscale / outputscale / ...; other noise)
+                    cur_spec = dict(cur_spec, hseed=prng.randint(0, 10 ** 9))
+                    donor_k = build_kernel(cur_spec)
+                    if case["lik"] == "gaussian":
+                        dl = gpytorch.likelihoods.GaussianLikelihood(); dl.noise = case["noise"] * prng.choice([0.5, 2.0, 5.0])
+                    else:
+                        dl = gpytorch.likelihoods.FixedNoiseGaussianLikelihood(noise.clone())
+                    donor = GP(X, y, dl, donor_k)
+                    model.load_state_dict(donor.state_dict())
+                elif op == "train_eval":
+                    model.train(); lik.train(); model.eval(); lik.eval()
+                if op != "predict":
+                    # the test points move as well: every prediction is a new call
+                    Xs = T(fresh_pts(t))
+                post = model(Xs)
+                nz = model.likelihood.noise.detach().reshape(-1)
+                nz = nz.expand(X.shape[0]).clone() if nz.numel() == 1 else nz.clone()
+                outs.append(dict(step=step, op=op, X=X.clone(), Xs=Xs.clone(), cov=post.covariance_matrix, var=post.variance,
+                                 sd=post.stddev, spec=cur_spec, noise=nz))
+    except Exception as e:
+        ext = external_frame(e)
+        if ext and iterative:
+            out.fail("external:linear_operator:%s:%s:history:%s" % (ext, type(e).__name__, flag),
+                     "installed linear_operator raised %r in %s under the %s settings" % (e, ext, flag), desc)
+        else:
+            out.fail("history-exception:%s:%s:%s" % (case["ops"][min(max(step - 1, 0), len(case["ops"]) - 1)], flag, type(e).__name__),
+                     "history %r raised %r at step %d" % (["predict"] + case["ops"], e, step), desc)
+        return
+    for o in outs:
+        with torch.no_grad():
+            k0 = build_kernel(o["spec"])
+            Kss = k0(o["Xs"]).to_dense()
+            sc = scale_of(Kss)
+            rel, det = entry_rounding(k0, torch.cat([o["X"], o["Xs"]]))
+            amp = amplification(k0, o["X"], o["Xs"], o["noise"])
+            cond = torch.linalg.cond(k0(o["X"]).to_dense() + torch.diag(o["noise"])).item()
+        if iterative and cond >= 300.0:
+            out.count("history: fast_pred_var output not judged (cond >= 300)")
+            continue
+        rb = rel * sc * amp
+        d = dict(desc, step=o["step"], op=o["op"], rounding=dict(entry_bound=rb, amplification=amp, parts=det))
+        what = "posterior covariance after %s (step %d of predict, %s)" % (o["op"], o["step"], ", ".join(case["ops"]))
+        psd_suite(out, "history:%s:%s" % (o["op"], flag), d, o["cov"], Kss, o["var"], o["sd"], jobs, owner, tol, not iterative, sc, rb, st,
+                  what)
+
+
 # --------------------------------------------------------------------------- part D: variance clamp
 
 CLAMP_DIAGS = [
@@ -905,7 +1316,14 @@ def run(out, ctx):
                 "clusters, equispaced, 1e3 from the origin) x lengthscale {mid, 1e-3, 1e3}, n in 2..12; exact GP posteriors "
                 "(16 kernels x 6 geometries x noise {1e-4,1e-2,0.3} x Gaussian/FixedNoise x test points fresh / on training "
                 "points, paths default / eager kernels / max_eager_kernel_size(1) / fast_pred_var (both) / CG) with marginals and one-at-a-time monotonicity; variational "
-                "posteriors (whitened/unwhitened x Cholesky/MeanField/Delta); variance clamp and noise-floor grids. "
+                "posteriors (whitened/unwhitened x Cholesky/MeanField/Delta); variance clamp and noise-floor grids; "
+                "part F (own random stream): observation_nan_policy mask/fill posteriors (single / FixedNoise / batch of 2 / multitask "
+                "T=2, >= 1 hole and >= 1 observation per element, test points fresh or on the holes, fast_pred_var on/off; also "
+                "compared with the posterior of the same data without holes), fantasy histories (Gaussian / FixedNoise / "
+                "FixedNoise+learned, 1..3 get_fantasy_model steps of 1..2 points, fantasy noise 0.01x..1000x the training noise, "
+                "fast_pred_var on/off; every step PSD, below the prior and below its source), and histories predict -> 1..3 of "
+                "{set_train_data(inputs) / (targets) / (both) / (both, resized, strict=False), load_state_dict of another "
+                "parameter set, train-eval, predict} -> predict under default / eager / fast_pred_var. "
                 "non-trivial = matrix has a non-zero off-diagonal / n_train >= 2. " % len(FAMILIES)) + ROUNDING_RULE
     out.extra["tolerances"] = {"eig": "lambda_min >= -max(%g*scale, 8*n*b)" % EIG_TOL, "symmetry": "max(%g*scale, 8*b)" % SYM_TOL,
                                 "b": "per-case entry rounding bound (see rule); recorded as entry_rounding_bound / rounding in every case",
@@ -918,6 +1336,14 @@ def run(out, ctx):
         run_post(out, case, jobs, owner, rng)
     for case in var_cases(rng, tier):
         run_var(out, case, jobs, owner)
+    # part F draws from its own stream so that parts A-E generate the same cases as before it existed
+    rng_f = random.Random(seed * 7919 + 13)
+    for case in nan_cases(rng_f, tier):
+        run_nan(out, case, jobs, owner)
+    for case in fant_cases(rng_f, tier):
+        run_fant(out, case, jobs, owner)
+    for case in hist_cases(rng_f, tier):
+        run_hist(out, case, jobs, owner)
     # clamps and noise floors: implementation now, model answers with the certificate batch
     for case in clamp_cases(rng, tier):
         try:
@@ -1026,6 +1452,12 @@ def replay(path):
         run_post(out, case, jobs, owner, random.Random(0))
     elif kind == "var":
         run_var(out, case, jobs, owner)
+    elif kind == "nanpost":
+        run_nan(out, case, jobs, owner)
+    elif kind == "fantasy":
+        run_fant(out, case, jobs, owner)
+    elif kind == "history":
+        run_hist(out, case, jobs, owner)
     elif kind == "clamp":
         used, var, sd, mvv = clamp_impl(case)
         print("diag", used, "variance", var, "min_variance", mvv)
